@@ -9,7 +9,10 @@ import (
 	"strconv"
 	"strings"
 	"sync"
+	"sync/atomic"
 	"syscall"
+	"time"
+	"verif/internal/sched"
 
 	"github.com/hashicorp/go-hclog"
 	"github.com/hashicorp/raft"
@@ -171,7 +174,19 @@ func c07Child(args []string) {
 		os.Exit(5)
 	}
 	m := &c07Marker{f: mf}
+	// "@pinned" scenario: the goroutine whose release of an old state deletes a segment file
+	// is held right after that Delete's directory fsync
+	var holdDir atomic.Bool
+	var heldGid atomic.Int64
+	dirHeld, dirRelease := make(chan struct{}), make(chan struct{})
 	hk := func(point string, arg any) {
+		if point == "fs.fsync.dir" && holdDir.Load() && sched.Goid() == heldGid.Load() {
+			holdDir.Store(false)
+			m.mark("HOOK %s", point)
+			close(dirHeld)
+			<-dirRelease
+			return
+		}
 		if strings.HasPrefix(point, "fs.fsync") || strings.HasPrefix(point, "meta.") {
 			m.mark("HOOK %s", point)
 		}
@@ -198,6 +213,83 @@ func c07Child(args []string) {
 	rng := rand.New(rand.NewSource(seed))
 	first, _ := w.FirstIndex()
 	last, _ := w.LastIndex()
+	if killHook == "@pinned" {
+		// A reader pins the current state; a head truncation drops the first segment; the
+		// reader's release runs the finalizer (unlink + directory fsync) on the reader's
+		// goroutine, which is held right after that fsync while the writer rotates into a new
+		// segment file and commits into it for the first time. The directory fsync made by the
+		// Delete began before the new file existed, so it does not cover it.
+		n := 1000
+		app := func(k, size int) {
+			next := last + 1
+			var logs []*raft.Log
+			for i := 0; i < k; i++ {
+				logs = append(logs, gen.Entry(rng, next+uint64(i), "p", size))
+			}
+			n++
+			m.mark("BEGIN %d append", n)
+			if err := w.StoreLogs(logs); err == nil {
+				m.mark("ACK %d append ok", n)
+				if last == 0 {
+					first = next
+				}
+				last = next + uint64(k) - 1
+			} else {
+				m.mark("ACK %d append err=%v", n, err)
+			}
+			hooks.WaitRotation(w, drv.Watchdog)
+		}
+		for i := 0; i < 6; i++ {
+			app(2, 120)
+		}
+		ctl := sched.New()
+		rm := ctl.Install()
+		p1 := ctl.ParkAt("reader", "GetLog.acquired", 0)
+		readerDone := make(chan struct{})
+		go func() {
+			defer close(readerDone)
+			ctl.Tag("reader")
+			heldGid.Store(sched.Goid())
+			var l raft.Log
+			w.GetLog(first, &l)
+		}()
+		if p1.WaitReached(20 * time.Second) {
+			n++
+			m.mark("BEGIN %d delete-head", n)
+			err := w.DeleteRange(first, first+5)
+			m.mark("ACK %d delete-head %s", n, okErr(err))
+			if err == nil {
+				first += 6
+			}
+			holdDir.Store(true)
+			p1.Release()
+			select {
+			case <-dirHeld:
+				m.mark("PINNED delete held after its directory fsync")
+			case <-time.After(20 * time.Second):
+				m.mark("PINNED delete not reached")
+			}
+			// append until a rotation has created the next segment file, then let the Delete
+			// return, and only then commit into the new file for the first time
+			_, rot0, _ := hooks.Rotations(w)
+			for i := 0; i < 8; i++ {
+				app(2, 120)
+				if _, r, _ := hooks.Rotations(w); r > rot0 {
+					break
+				}
+			}
+			holdDir.Store(false)
+			close(dirRelease)
+			<-readerDone
+			app(2, 120)
+			app(2, 120)
+		} else {
+			p1.Release()
+			m.mark("PINNED reader not parked")
+		}
+		<-readerDone
+		rm()
+	}
 	for n := 1; n <= nops; n++ {
 		x := rng.Intn(100)
 		switch {
@@ -599,6 +691,8 @@ func c07Scenario(c *evid.Ctx, seed int64, kills []string, nops int, only ...stri
 			killCre = strings.TrimPrefix(kill, "create:")
 		case strings.HasPrefix(kill, "hook:"):
 			killHook = strings.TrimPrefix(kill, "hook:")
+		case kill == "pinned":
+			killHook = "@pinned"
 		}
 		logf := filepath.Join(tmp, fmt.Sprintf("trace%d.log", life))
 		cmd := exec.Command("strace", "-f", "-y", "-s", "200", "-e", "trace=openat,pwrite64,fsync,fdatasync,unlinkat,unlink,renameat,renameat2,rename,fallocate,ftruncate,write,flock",
@@ -615,7 +709,18 @@ func c07Scenario(c *evid.Ctx, seed int64, kills []string, nops int, only ...stri
 		}
 		c.Count("lifetimes", 1)
 		c.Count("trace_lines", int64(res.Lines))
-		if kill != "none" {
+		if kill == "pinned" {
+			if err != nil {
+				c.Violation("C07:child-failed", fmt.Sprintf("workload child failed: %v %.300s", err, out), mo.replay)
+				return
+			}
+			for _, e := range res.Events {
+				if e.Name == "marker" && strings.HasPrefix(e.Marker, "PINNED delete held") {
+					c.Count("pinned_delete_interleavings", 1)
+					c.Distinct("rule_paths", "R2|first-commit-while-a-delete's-dir-fsync-is-in-flight")
+				}
+			}
+		} else if kill != "none" {
 			if res.Killed {
 				c.Count("lifetimes_killed", 1)
 				c.Distinct("rule_paths", "kill|"+strings.SplitN(kill, ":", 2)[0])
@@ -663,17 +768,23 @@ func runC07(c *evid.Ctx) {
 	type sc struct {
 		kills []string
 		nops  int
+		only  string
 	}
 	scenarios := []sc{
-		{nil, 40},
-		{[]string{"hook:meta.rename"}, 25},
-		{[]string{"create:2"}, 25},
-		{[]string{"create:1", "vfs:9"}, 20},
-		{[]string{"vfs:4", "vfs:13"}, 25},
-		{[]string{"vfs:30", "create:3"}, 30},
-		{[]string{"firstsync:2"}, 25},
-		{[]string{"firstsync:1", "firstsync:1"}, 20},
-		{[]string{"firstsync:4", "create:1"}, 30},
+		{nil, 40, ""},
+		{[]string{"hook:meta.rename"}, 25, ""},
+		{[]string{"create:2"}, 25, ""},
+		{[]string{"create:1", "vfs:9"}, 20, ""},
+		{[]string{"vfs:4", "vfs:13"}, 25, ""},
+		{[]string{"vfs:30", "create:3"}, 30, ""},
+		{[]string{"firstsync:2"}, 25, ""},
+		{[]string{"firstsync:1", "firstsync:1"}, 20, ""},
+		{[]string{"firstsync:4", "create:1"}, 30, ""},
+		// a Delete's directory fsync in flight while a new segment file is created and first
+		// committed into (two goroutines interleave their VFS calls here, so only the
+		// trace-level rules are evaluated: un-fsynced writes and the directory fsync)
+		{[]string{"pinned"}, 8, ":R"},
+		{[]string{"pinned", "pinned"}, 6, ":R"},
 	}
 	if !quick(c) {
 		for i := 0; i < 70; i++ {
@@ -691,7 +802,7 @@ func runC07(c *evid.Ctx) {
 					ks = append(ks, "hook:meta.rename")
 				}
 			}
-			scenarios = append(scenarios, sc{ks, 20 + r.Intn(40)})
+			scenarios = append(scenarios, sc{ks, 20 + r.Intn(40), ""})
 		}
 	}
 	jobs := make(chan int, 16)
@@ -701,7 +812,11 @@ func runC07(c *evid.Ctx) {
 		go func() {
 			defer wg.Done()
 			for i := range jobs {
-				c07Scenario(c, c.Seed*100003+int64(i), scenarios[i].kills, scenarios[i].nops)
+				if scenarios[i].only != "" {
+					c07Scenario(c, c.Seed*100003+int64(i), scenarios[i].kills, scenarios[i].nops, scenarios[i].only)
+				} else {
+					c07Scenario(c, c.Seed*100003+int64(i), scenarios[i].kills, scenarios[i].nops)
+				}
 			}
 		}()
 	}
